@@ -444,7 +444,11 @@ def run(tier):
     ok, msg, _ = mini_pool.verify()
     if not ok:
         R.fail("vacuous:mini-pool", {"message": msg}, "the hand-written pool no longer parses or misses node classes")
+    import time
+
+    t0 = time.time()
     pool, sizes, src = mini_pool.load_pool(tier)
+    phases = {"pool_build": round(time.time() - t0, 1)}
     pool.sort(key=lambda x: (len(x[1]), x[1]))
     parts = {}
     allhash = set()
@@ -452,6 +456,7 @@ def run(tier):
     collected = []
 
     def sweep(label, fn, tasks):
+        t1 = time.time()
         st_all = new_stats()
         hs_all = set()
         for st, fl, hs in core.pmap(fn, tasks, chunksize=1):
@@ -462,6 +467,7 @@ def run(tier):
         parts[label]["distinct_trees"] = len(hs_all)
         merge_stats(total, st_all)
         allhash.update(hs_all)
+        phases[label] = round(time.time() - t1, 1)
         return st_all
 
     # smallest inputs first so that the first case per signature is minimal
@@ -503,6 +509,7 @@ def run(tier):
     R.set("special_shapes", feats)
     R.set("node_classes_reached", total["classes"])
     R.set("per_part", parts)
+    R.set("phase_seconds", phases)
     R.set("pool_source", src)
     R.set("pool_parts", sizes)
     R.set("bounds", {"literal_alphabet": ALPHABET, "literal_body<=": MAXBODY, "prefixes": PREFIXES,
